@@ -440,6 +440,81 @@ def o10(h, st):
     h.done()
 
 
+@contract("C01", "O11.simulate.history_independence", level="B",
+          structures=lambda tier: [{"backend": b, "k": k} for b in ("cirq", "sympy") for k in range(3 if tier == "quick" else 10)],
+          native_samples=lambda st, rnd, tier: [{"seed": rnd.randint(0, 10 ** 6)}],
+          targets=[(BK, "Backend.simulate"), (TGC, "CirqSimulator.simulate_circuit"), (TGS, "SympySimulator.simulate_circuit")])
+def o11(h, st):
+    """bounded: ONE backend object used for a whole history of simulations - default initial state, a supplied initial statevector, the default again, a basis state, an
+    equal circuit rebuilt from scratch, another circuit of the same width, the first circuit again, exact and sampled mode interleaved: EVERY call returns U(c) applied to the
+    initial state of THAT call (independent evaluation), i.e. nothing a call leaves behind in the backend (or in the circuit objects) influences a later call"""
+    import random
+    import numpy as np
+    from tangelo.linq import get_backend
+    rnd = random.Random(int(h.integer("seed")) * 17 + st["k"])
+    n = 2 + st["k"] % 2
+    names = SYMPY_NAMES if st["backend"] == "sympy" else ALL_NAMES
+
+    def rand_gates(depth):
+        gates = []
+        while len(gates) < depth:
+            name = rnd.choice(names)
+            nt = 2 if name in TWO_TARGET else 1
+            nc = (1 if st["backend"] == "sympy" or n - nt < 2 else rnd.choice([1, 2])) if name.startswith("C") else 0
+            if nt + nc > n:
+                continue
+            qs = rnd.sample(range(n), nt + nc)
+            p = rnd.choice([0.3, -0.3, math.pi, -7.1, rnd.uniform(-4, 4)]) if name in PARAM else ""
+            gates.append((name, qs[:nt], qs[nt:] or None, p))
+        return gates
+    specs = [rand_gates(3), rand_gates(2)]
+    sim = get_backend(st["backend"])
+    sims = get_backend(st["backend"], n_shots=20) if st["backend"] == "cirq" else None
+    order = sim.backend_info()["statevector_order"]
+    perm = list(range(2 ** n)) if order == "lsq_first" else [int(format(i, f"0{n}b")[::-1], 2) for i in range(2 ** n)]
+    rs = np.random.default_rng(rnd.randint(0, 10 ** 6))
+    custom = rs.normal(size=2 ** n) + 1j * rs.normal(size=2 ** n)
+    custom = custom / np.linalg.norm(custom)
+    basis = np.zeros(2 ** n, dtype=complex)
+    basis[2 ** n - 2] = 1
+    circuits = {0: mk_circuit([mk_gate(*g) for g in specs[0]], n), 1: mk_circuit([mk_gate(*g) for g in specs[1]], n)}
+    #          (circuit, initial state, sampled)
+    history = [(0, None, False), (0, custom, False), (0, None, False), (0, basis, False), ("rebuilt 0", None, False), (1, None, False), (0, None, True), (1, custom, False),
+               (1, None, False), (0, None, False)]
+    for step, (ci, v0, sampled) in enumerate(history):
+        if sampled and sims is None:
+            continue
+        if ci == "rebuilt 0":
+            c, gates = mk_circuit([mk_gate(*g) for g in specs[0]], n), specs[0]
+        else:
+            c, gates = circuits[ci], specs[ci]
+        U = qsem.to_numpy(qsem.unitary([mk_gate(*g) for g in gates], n, exact=False)[0], n)
+        start = np.zeros(2 ** n, dtype=complex)
+        start[0] = 1
+        args = [c, not sampled]
+        if v0 is not None:
+            start = v0
+            init = v0[perm]
+            args.append(init if st["backend"] == "cirq" else np.array(init).reshape(-1, 1))
+        exp = U @ start
+        probs = {format(i, f"0{n}b"): abs(exp[i]) ** 2 for i in range(2 ** n) if abs(exp[i]) ** 2 > 1e-9}
+        tag = f"call {step} (circuit {ci}, {'custom' if v0 is custom else 'basis' if v0 is basis else 'default'} initial state{', sampled' if sampled else ''}): "
+        if sampled:
+            np.random.seed(step)
+            f2, _ = h.call(BK, "Backend.simulate", sims, *args)
+            f2 = {k: float(v) for k, v in f2.items() if abs(float(v)) > 1e-9}
+            h.check(tag + "sampled outcomes inside the exact support of THIS call", set(f2) <= set(probs), detail=f"{f2} vs {probs}")
+            continue
+        freqs, sv = h.call(BK, "Backend.simulate", sim, *args)
+        got = np.array(sv, dtype=complex).reshape(-1)
+        got_qsem = np.array([got[perm.index(i)] if order != "lsq_first" else got[i] for i in range(2 ** n)])
+        err = float(np.max(np.abs(got_qsem - exp)))
+        h.check(tag + "statevector == U(c) applied to the initial state of this call", err < 1e-6, detail=f"max err {err:.2e}")
+        ok = all(abs(complex(freqs.get(k, 0.0)) - probs.get(k, 0.0)) < 1e-6 for k in set(freqs) | set(probs))
+        h.check(tag + "outcome distribution == |amplitude|^2 of this call", ok, detail=f"{freqs} vs {probs}")
+    h.done()
+
+
 PROPERTY = {
     "level": "other",
     "explanation": "What Tangelo owns is proved: both translators (gate mapping, operator order, number of controls, qubit order of controlled gates), "
